@@ -90,6 +90,15 @@ def init(repo: str, so_path: str | None, config: dict) -> None:
         pendulum.set_locale(amb["locale"])
     signal.signal(signal.SIGALRM, _alarm)
     signal.signal(signal.SIGPROF, _alarm)
+    # reference-side caches filled in the parent (plan() reads transition lists) belong to the parent's tz path:
+    # a worker pinned to the other database must read its own files
+    from .ref import tzref
+    from . import seeds, obs
+    tzref.zone.cache_clear()
+    for mod_ in (seeds, obs):
+        for v in vars(mod_).values():
+            if hasattr(v, "cache_clear"):
+                v.cache_clear()
     keep = CTX.get("cov")
     CTX.clear()
     CTX.update(repo=repo, so=so_path, config=dict(config), tzpath=tzp)
